@@ -164,7 +164,7 @@ static void body_create(Tape &t, Ctx &c) {
 		c.sample = fmt("{\"histogram\":%s,\"subset\":%d,\"support\":%d,\"hdr_bytes\":%u,\"worst_case_bits\":%d,\"len_of_eob\":%u}", jstr(kind).c_str(), (int) subset, support, ((struct isal_hufftables *) hb.p)->deflate_hdr_count, w, r.ll[256]); }
 }
 
-static struct isal_hufftables g_ht, g_ht2;
+static struct isal_hufftables g_ht;
 
 // compress with the table: any data (full builder) / data drawn from the histogram's support (subset builder)
 static void body_roundtrip(Tape &t, Ctx &c) {
